@@ -84,6 +84,113 @@ def _elementary_tests(f: Func) -> List[Tuple[ast.AST, ast.AST, ast.AST, str]]:
     return out
 
 
+PROJECTIONS = ("network_address", "broadcast_address", "hostmask", "netmask", "prefixlen", "num_addresses", "max_prefixlen", "packed")
+
+
+def _projection(e: ast.AST) -> Optional[ast.AST]:
+    """A sub-expression that takes a part of a network (its first address, its mask, an element) instead of the network."""
+    for x in ast.walk(e):
+        if isinstance(x, ast.Attribute) and x.attr in PROJECTIONS:
+            return x
+        if isinstance(x, ast.Subscript) and not isinstance(x.slice, ast.Slice) and isinstance(x.ctx, ast.Load):
+            return x
+        if isinstance(x, ast.Call) and isinstance(x.func, ast.Name) and x.func.id in ("next", "min", "max", "int", "len"):
+            return x
+        if isinstance(x, ast.Call) and isinstance(x.func, ast.Attribute) and x.func.attr == "hosts":
+            return x
+    return None
+
+
+def _drops_members(e: ast.AST) -> Optional[ast.AST]:
+    """A sub-expression that lets only some members through: a filtering comprehension, filter(), a proper slice."""
+    for x in ast.walk(e):
+        if isinstance(x, (ast.ListComp, ast.GeneratorExp, ast.SetComp)) and any(g.ifs for g in x.generators):
+            return x
+        if isinstance(x, ast.Call) and isinstance(x.func, ast.Name) and x.func.id == "filter":
+            return x
+        if isinstance(x, ast.Subscript) and isinstance(x.slice, ast.Slice) and not (x.slice.lower is None and x.slice.upper is None):
+            return x
+    return None
+
+
+def candidate_members_complete(ctx: Ctx, rep: Report, f: Func, q: str, of) -> None:
+    """The loop over the candidate's members sees all of them: neither its iterable nor the private helper that fetches
+    the members filters (a dropped member is a member nobody tested)."""
+    env = {}
+    from .common import single_env
+
+    env = dict(single_env(f.node))
+    stores: Dict[str, int] = {}
+    for n in own_nodes(f.node):
+        if isinstance(n, ast.Name) and isinstance(n.ctx, ast.Store):
+            stores[n.id] = stores.get(n.id, 0) + 1
+    for n in own_nodes(f.node):
+        if isinstance(n, ast.NamedExpr) and isinstance(n.target, ast.Name) and stores.get(n.target.id) == 1:
+            env[n.target.id] = n.value
+    for n in own_nodes(f.node):
+        if not isinstance(n, (ast.For, ast.comprehension)):
+            continue
+        if of(n.iter) != {"other"}:
+            continue
+        rep.instance()
+        # the iterable and the (original) expressions its names stand for
+        origs: List[ast.AST] = [n.iter]
+        seen_names: Set[str] = set()
+        i_ = 0
+        while i_ < len(origs):
+            for y in ast.walk(origs[i_]):
+                if isinstance(y, ast.Name) and y.id in env and y.id not in seen_names:
+                    seen_names.add(y.id)
+                    origs.append(env[y.id])
+            i_ += 1
+        exprs: List[Tuple[Func, ast.AST]] = [(f, o) for o in origs]
+        for x in [y for o in origs for y in ast.walk(o)]:
+            if isinstance(x, ast.Call):
+                for edge in ctx.cg.all_edges(f):
+                    if edge.site is x and not edge.weak and edge.target.cls is not None and edge.target.name.startswith("_"):
+                        for r in own_nodes(edge.target.node):
+                            if isinstance(r, ast.Return) and r.value is not None:
+                                exprs.append((edge.target, deep_resolve(r.value, single_env(edge.target.node)) or r.value))
+        bad = next(((g, d) for g, ex in exprs for d in [_drops_members(ex)] if d is not None), None)
+        if bad:
+            g, d = bad
+            rep.violation(g.qualname, snippet(d, 70), f"members of the candidate are filtered out before {q} tests them: a group is reported contained although a member nobody looked at lies outside", where(g, d), inp="nxos group {10.0.0.0/30, 10.0.0.0 0.0.3.3} in 10.0.0.0/24")
+        else:
+            rep.ok(f"{q}: members of the candidate ({snippet(n.iter, 40)})", "the whole member list is iterated (no filter, no slice; helpers return the list as it is)", where=where(f, n.iter))
+
+
+def no_carried_positive(ctx: Ctx, rep: Report, f: Func, q: str, of) -> None:
+    """Inside the loop over the candidate's members, evidence found for one member does not count for the next: a flag
+    that is set to a truthy constant in the loop body is re-initialised in every iteration before it is read."""
+    cfg = ctx.cfg(f)
+    for lp in [n for n in cfg.live if n.kind == "for" and of(n.ast.iter) == {"other"}]:
+        inside_ids = {id(x) for b in lp.ast.body for x in ast.walk(b)}
+        body_start = [s_ for lab, s_ in lp.succ if lab == "body"]
+        if not body_start:
+            continue
+        flags: Dict[str, ast.AST] = {}
+        for x in ast.walk(lp.ast):
+            if id(x) in inside_ids and isinstance(x, (ast.Assign, ast.AnnAssign)) and x.value is not None:
+                tg = x.targets[0] if isinstance(x, ast.Assign) else x.target
+                if isinstance(tg, ast.Name) and isinstance(x.value, ast.Constant) and x.value.value:
+                    flags.setdefault(tg.id, x)
+        for name, st in sorted(flags.items()):
+            rep.instance()
+
+            def stores(m: Node, name=name) -> bool:
+                if m.ast is None:
+                    return False
+                root = m.ast.target if m.kind == "for" else m.ast
+                return m.kind in ("stmt", "for") and any(isinstance(y, ast.Name) and y.id == name and isinstance(y.ctx, ast.Store) for y in ast.walk(root))
+
+            reads = [m for m in cfg.live if m.ast is not None and id(m.ast if m.kind != "for" else m.ast.iter) in inside_ids and any(isinstance(y, ast.Name) and y.id == name and isinstance(y.ctx, ast.Load) for y in ast.walk(m.ast if m.kind != "for" else m.ast.iter))]
+            carried = [m for m in reads if not stores(m) and not cfg.all_paths_pass(body_start[0], m, stores, labels_avoid=("exc",)) and body_start[0] is not m or (body_start[0] is m and not stores(m))]
+            if carried:
+                rep.violation(q, f"{snippet(st, 40)} ... {snippet(carried[0].ast, 40)}", f"`{name}` is set when one member of the candidate is found inside and is still set when the next member is judged: after the first contained member every later one passes untested", where(f, carried[0].ast), inp="group {10.0.0.0/30, 192.168.0.0/24} in group {10.0.0.0/24} -> True")
+            else:
+                rep.ok(f"{q}: flag `{name}`", "re-initialised in every iteration over the candidate's members before it is read", where=where(f, st))
+
+
 def containment_operator(ctx: Ctx, rep: Report, q: str) -> None:
     f = ctx.func(q)
     rep.require(len(f.params) >= 2, f"{q} lost its operand")
@@ -100,6 +207,10 @@ def containment_operator(ctx: Ctx, rep: Report, q: str) -> None:
             continue  # a test that does not relate the two operands (isinstance-like membership in a constant)
         n_dir += 1
         rep.instance()
+        part = _projection(cand) or _projection(cont)
+        if part is not None:
+            rep.violation(q, snippet(node), f"the test compares `{snippet(part, 40)}`, a single address or a part of the network, not the network: a candidate that starts inside the container and reaches outside is reported contained", where(f, node), inp="10.0.0.0/8 in 10.0.0.0/24 -> True")
+            continue
         if tc == {"other"} and tk == {"self"}:
             rep.ok(f"{q}: {snippet(node, 50)}", "candidate from the operand, container from self", where=where(f, node))
         elif tc == {"self"} and tk == {"other"}:
@@ -110,6 +221,8 @@ def containment_operator(ctx: Ctx, rep: Report, q: str) -> None:
     if n_dir == 0:
         rep.violation(q, "containment test", "no test relates the operand to self: the answer does not depend on containment", where(f))
     # ---- quantifiers
+    candidate_members_complete(ctx, rep, f, q, of)
+    no_carried_positive(ctx, rep, f, q, of)
     _quantifier_calls(ctx, rep, f, q, of)
     loops = [n for n in cfg.live if n.kind == "for"]
     truthy = [r for r in return_nodes(cfg) if not falsy_const_return(r)]
@@ -225,6 +338,25 @@ def list_level(ctx: Ctx, rep: Report) -> None:
         kw = {k.arg: k.value for k in c.keywords}
         tops_e = kw.get("tops", c.args[0] if c.args else None)
         bots_e = kw.get("bottoms", c.args[1] if len(c.args) > 1 else None)
+        # every answer that can be positive is the list-level test's answer
+        from .common import single_env
+
+        env2 = single_env(m.node)
+        loose = []
+        for r in return_nodes(ctx.cfg(m)):
+            if r.ast.value is None or falsy_const_return(r):
+                continue
+            v = r.ast.value
+            for _ in range(4):
+                if isinstance(v, ast.Name) and v.id in env2:
+                    v = env2[v.id]
+                elif isinstance(v, ast.Call) and isinstance(v.func, ast.Name) and v.func.id == "bool" and len(v.args) == 1:
+                    v = v.args[0]
+            if not any(v is c_ for c_ in calls):
+                loose.append(r)
+        if loose:
+            rep.violation(m.qualname, snippet(loose[0].ast), "a positive answer that is not the answer of the network containment test (equality of lines or of group names says nothing about the members' networks)", where(m, loose[0].ast), inp="two groups with the same name and different members")
+            continue
         if tops_e is not None and bots_e is not None and of2(tops_e) == {"other"} and of2(bots_e) == {"self"}:
             rep.ok(f"{m.qualname}: {snippet(c, 60)}", f"self is the candidate (bottoms), `{other}` the container (tops)", where=where(m, c))
         else:
@@ -240,4 +372,11 @@ def run(ctx: Ctx, rep: Report, tier: str) -> None:
             containment_operator(ctx, rep, q)
             n += 1
     rep.require(n == 2, "the containment operators of AddressBase / AddrGroup vanished")
+    # R13.4 the networks the tests run over are the members' own: nobody changes a member's memo list in place (C05 R05.9)
+    from .c05 import r05_9
+
+    sub = Report("C13")
+    r05_9(ctx, sub, rid="R05.9")
+    rep.absorb(sub, "R13.4")
+    rep.rule("R13.3")
     rep.floor(6, "elementary tests and loops of the containment operators")
